@@ -118,6 +118,10 @@ def _convert_always_true(_gate: gate.Gate, circuit: 'Circuit') -> None:
     """
     first_input = circuit.input_at_index(0)
 
+    # a constant may carry (ignored) operands: it stops being their user.
+    for operand in _gate.operands:
+        circuit._remove_user(operand, _gate.label)
+
     new_gate_label = 'new_gate_ALWAYS_TRUE_for_' + _gate.label + uuid.uuid4().hex
     circuit.emplace_gate(new_gate_label, gate.NOT, (first_input,))
 
@@ -139,6 +143,10 @@ def _convert_always_false(_gate: gate.Gate, circuit: 'Circuit') -> None:
 
     """
     first_input = circuit.input_at_index(0)
+
+    # a constant may carry (ignored) operands: it stops being their user.
+    for operand in _gate.operands:
+        circuit._remove_user(operand, _gate.label)
 
     new_gate_label = 'new_gate_ALWAYS_FALSE_for_' + _gate.label + uuid.uuid4().hex
     circuit.emplace_gate(new_gate_label, gate.NOT, (first_input,))
